@@ -24,8 +24,9 @@ from pdmesh_common import split
 
 PROP = "C08"
 LEAVES = ["sphere", "cylinder", "ellipsoid", "line", "core_multi_shell", "barbell", "sphere@hardsphere",
-          "cylinder@hayter_msa", "parallelepiped", "lamellar", "power_law", "core_shell_sphere", "guinier"]
-FIXED = ["core_multi_shell+ellipsoid", "core_multi_shell*sphere+cylinder", "sphere+cylinder", "sphere*cylinder", "cylinder+sphere", "line*sphere", "sphere*line",
+          "cylinder@hayter_msa", "parallelepiped", "lamellar", "power_law", "core_shell_sphere", "guinier",
+          "vesicle@hardsphere"]
+FIXED = ["sphere+vesicle@hardsphere", "core_multi_shell+ellipsoid", "core_multi_shell*sphere+cylinder", "sphere+cylinder", "sphere*cylinder", "cylinder+sphere", "line*sphere", "sphere*line",
          "barbell+sphere*cylinder@hardsphere", "line*sphere*cylinder", "sphere*cylinder+ellipsoid*line",
          "sphere+sphere", "core_multi_shell+sphere", "sphere@hardsphere+cylinder"]
 
